@@ -27,7 +27,7 @@ Fixpoint ireplace (t:iexpr) (p:path) (n:iexpr) {struct p} : iexpr :=
 
 (* class tags *)
 Definition cls_const : N := 1. Definition cls_var : N := 2.
-Definition cls_un (u:uk) : N := match u with UNeg => 3 | UFact => 4 | USgn => 5 end.
+Definition cls_un (u:uk) : N := match u with UNeg => 3 | UFact => 4 | USgn => 5 | UAbs => 12 end.
 Definition cls_bin (k:bk) : N := match k with KEq => 6 | KAdd => 7 | KSub => 8 | KMul => 9 | KDiv => 10 | KPow => 11 end.
 
 Fixpoint irep (h:heap) (t:iexpr) (p:option nat) : Prop :=
